@@ -568,3 +568,21 @@ UNITS += LOOP_UNITS
 for _k in ("trusted_base", "assumptions", "not_decided"):
     META[_k] = list(META.get(_k, [])) + list(LOOP_META.get(_k, []))
 STATIC = list(globals().get("STATIC", [])) + list(LOOP_STATIC)
+
+
+# ---- C10 units reused (added by main after seeded change C19-5 was missed): a task handed to a pool with elasticity is put on the
+# ---- queue of the worker select_active_pu chose WHILE the PU mutex handed back by select_active_pu is still held -- that mutex is
+# ---- what suspend_processing_unit_internal needs for running -> pre_sleep, so the chosen worker cannot fall asleep in between.
+_c10 = {}
+exec(compile(open("/verif/specs/C10/spec.py").read(), "/verif/specs/C10/spec.py", "exec"), _c10)
+for _u in _c10["UNITS"]:
+    if _u.name in ("lpq.create_thread", "lpq.schedule_thread", "lpq.schedule_thread_last"):
+        _u.name = "c10." + _u.name
+        _u.template = "../C10/" + _u.template
+        UNITS.append(_u)
+META["trusted_base"] = list(META.get("trusted_base", [])) + [
+    "units c10.lpq.* are the C10 units of the same name (specs/C10/queues.c: the unique_lock as an owns flag, select_active_pu as the "
+    "contract proved by state.select_active_pu) with their trusted base"]
+META["not_decided"] = list(META.get("not_decided", [])) + [
+    "the same 'lock kept until the task is queued' obligation for local_queue_scheduler and shared_priority_queue_scheduler "
+    "(their placement units model the unique_lock as an int)"]
